@@ -657,6 +657,25 @@ def run(tier, seed, model_ok=True):
             res.oracle_failures += sub.oracle_failures
             res.evaluations += sub.evaluations
             res.count("sanitized-evaluations", sub.evaluations)
+    # framing of relayed multicast / broadcast messages (async_mcast / async_bcast legs that reach their destination through an
+    # intermediate hop under NR / NLNR are re-buffered by their routing header: a wrong size field misframes everything packed
+    # behind them): the concurrent programs of C05, judged by their direct oracle only (their Lean side belongs to C05)
+    from props import c05
+    rb, rerr = C.build_harness("route")
+    if rb is None:
+        res.corr_failures.append({"relation": "harness builds against /repo", "what": (rerr or "")[-800:], "case": None})
+    else:
+        cfgs = c05.conc_configs("quick", seed)
+        outs = C.pmap(lambda co: c05.run_conc(rb, co[0]), cfgs)
+        sub = C.Result()
+        for (cfg, ops), sr in zip(cfgs, outs):
+            c05.check_conc(sub, cfg, sr, ops, {}, {}, False)
+        res.evaluations += len(cfgs)
+        res.count("relayed mcast / bcast framing: concurrent programs judged", len(cfgs))
+        for f in sub.oracle_failures:
+            f = dict(f)
+            f["signature"] = "relayed-message-framing " + str(f.get("signature"))
+            res.oracle_failures.append(f)
     # only the first few failures get a replay file: list one of every signature first (end-to-end cases before archive cases)
     order, seen_sig = [], {}
     for f in res.oracle_failures:
@@ -685,6 +704,9 @@ def check_only_oracle(binary, cfg):
 def replay(data):
     """re-run the recorded case; returns True when the failure does NOT reproduce"""
     case = data.get("case") or {}
+    if case.get("kind") == "conc":
+        from props import c05
+        return c05.replay(data)
     if not case and data.get("no_longer_checks"):
         for b in data["no_longer_checks"]:
             if isinstance(b.get("case"), dict) and b["case"].get("run"):
